@@ -72,6 +72,7 @@ def _sub(node, env):
     return G.substitute(node, env, recursive=False) if env else clone(node)
 
 
+_PURE_FUNCS_EARLY = None
 _MUTATORS = {'append', 'extend', 'insert', 'add', 'update', 'pop', 'remove', 'clear', 'sort', 'reverse', 'setdefault', 'popitem',
              'discard', 'appendleft', 'extendleft', 'popleft', 'put', 'get_nowait', 'put_nowait'}
 
@@ -86,6 +87,14 @@ def mutated_names(body) -> set:
                 out.add(n.func.value.id)
             elif isinstance(n, (ast.Subscript, ast.Attribute)) and isinstance(n.ctx, (ast.Store, ast.Del)) and isinstance(n.value, ast.Name):
                 out.add(n.value.id)
+            if isinstance(n, ast.Call) and (
+                    (isinstance(n.func, ast.Attribute) and isinstance(n.func.value, ast.Name) and n.func.value.id in ('self', 'cls')
+                     and n.func.attr not in _PURE_METHODS)
+                    or (isinstance(n.func, ast.Name) and n.func.id not in _PURE_FUNCS and not n.func.id[:1].isupper())):
+                # a container handed to a method of the own object / a plain function may be filled by it (append_row(..., row=row))
+                for a_ in list(n.args) + [k.value for k in n.keywords]:
+                    if isinstance(a_, ast.Name):
+                        out.add(a_.id)
     # an element handed out by iteration / subscription is part of the container: changing it changes the container
     changed = True
     while changed:
@@ -323,6 +332,11 @@ def _decide(node):
         return bool(node.keys)
     if isinstance(node, ast.Compare) and len(node.ops) == 1:
         l, r, op = node.left, node.comparators[0], node.ops[0]
+        f_ = G._formula(node)
+        if f_[0] == 'const':
+            return f_[1]
+        if f_[0] == 'not' and f_[1][0] == 'const':
+            return not f_[1][1]
         if isinstance(l, ast.Constant) and isinstance(r, ast.Constant):
             a, b = l.value, r.value
             if isinstance(op, ast.Is):
